@@ -5,5 +5,5 @@ CONSTANTS
   MaxLen = 2
 SPECIFICATION Spec
 INVARIANTS TypeOK OutValid NoOutputUnlessDone TrialsBounded ErrIff GenerousRecipeNeverRefused
-PROPERTIES RejectDiscardsCandidate RecipeNeverWritten
+PROPERTIES PanicIsTerminal RejectDiscardsCandidate RecipeNeverWritten
 CHECK_DEADLOCK FALSE
